@@ -217,6 +217,6 @@ def stages(tier):
              'lines of 40..1200 characters (comments, graph text, strings, alignments, non-ASCII) repeated at several line numbers within one '
              'input and across inputs of the same process'),
         Hyp('random', _random, 6000, 500000),
-        Fuzz('coverage-guided-bytes', 0, 2000000, decode=lambda data: {'s': data.decode('utf-8', 'ignore')}, seeds=corpus.test_strings(60),
+        Fuzz('coverage-guided-bytes', 0, 1000000, decode=lambda data: {'s': data.decode('utf-8', 'ignore')}, seeds=corpus.test_strings(60),
              dictionary=corpus.DICTIONARY, max_len=80),
     ]
